@@ -257,7 +257,7 @@ def init_contract(c, typed: bool):
     else:
         c.raises("AssertionError", when=bad_nid, ensures=others_unchanged, props=("C13",))
     c.raises("UniqueConstraintError", when=lambda x: And(Not(bad_nid(x)), clash(x), True if not typed else And(L.v_is_str(x.a.kind), x.a.kind != ANY_KIND)), ensures=lambda x: And(others_unchanged(x), wf(x.h, Tof(x))), props=("C03", "C13"))
-    c.may_raise("Exception", ensures=others_unchanged, props=("C13",), name="calc_data_id callback raises")
+    c.may_raise("Callback", ensures=others_unchanged, props=("C13",), name="calc_data_id callback raises", when=lambda x: z3.BoolVal(x.a.tag("data_id") == "none"))
 
     def post(x):
         h0, h, s, p = x.h0, x.h, x.a.self, x.a.parent
